@@ -104,12 +104,9 @@ StepMutate(names, d, op) ==
         sel == Select(t, d[t], XWhere(names, t, op.where))
         muts == XMuts(names, t, op.mutations)
         out == [u \in sel |-> MutateRow(t, d[t][u], muts, 1)]
-        \* ill-formed mutations fail even when no row is selected
-        probe == MutateRow(t, DefaultRow(t), muts, 1)
-        malformed == \E i \in DOMAIN muts :
-                        \/ muts[i][1] \notin Cols(t)
-                        \/ ~Col(t, muts[i][1]).mut
-    IN  IF malformed \/ \E u \in sel : ~out[u].ok
+        \* (a mutation of an immutable column that selects no row changes
+        \* nothing: accepted, like the implementation does)
+    IN  IF \E u \in sel : ~out[u].ok
         THEN [ok |-> FALSE, res |-> RError, d |-> d]
         ELSE [ok |-> TRUE, res |-> RCount(Cardinality(sel)),
               d |-> [d EXCEPT ![t] = [u \in DOMAIN d[t] |->
